@@ -4,7 +4,7 @@
 From Coq Require Import ZArith List Bool Arith Sorted Permutation.
 From Coq.Strings Require Import Byte.
 From Verif Require Import Lib.Bytes Model.Wire Model.Multisig Proofs.MultisigSort Proofs.MultisigSign
-  Proofs.MultisigFields.
+  Proofs.MultisigFields Proofs.MultisigOutpoint.
 Import ListNotations.
 Open Scope Z_scope.
 
@@ -237,6 +237,25 @@ Example partial_inputs_example :
       (ObState true [[ms_mk 0; ms_mk 1]; [ms_mk 0; ms_mk 1]], f); (ObPushed true, f) ].
 Proof. vm_compute. reflexivity. Qed.
 
+(* --- the concrete outpoint behind the abstract name ti_prev: the index an importing wallet reads back from an Input object
+   (4 bytes, big endian) is the index that was put there, for every 32-bit index and not only for output 0 --- *)
+Theorem handoff_keeps_output_index : forall txid n, 0 <= n < 2 ^ 32 ->
+  lib_import_outpoint txid (input_index_field n) = wire_outpoint txid n.
+Proof. exact import_keeps_outpoint. Qed.
+
+(* distinct (funding txid, output index) pairs are distinct 36-byte outpoints in the signed digest: two outputs of one funding
+   transaction, or the same index of two funding transactions, are never confused *)
+Theorem outpoints_distinct : forall t1 n1 t2 n2, length t1 = length t2 -> 0 <= n1 < 2 ^ 32 -> 0 <= n2 < 2 ^ 32 ->
+  wire_outpoint t1 n1 = wire_outpoint t2 n2 -> t1 = t2 /\ n1 = n2.
+Proof. exact wire_outpoint_inj. Qed.
+
+Example handoff_output_index_example :
+  lib_import_outpoint [x00; xab]%byte (input_index_field 65536) = [xab; x00; x00; x00; x01; x00]%byte.
+Proof. vm_compute. reflexivity. Qed.
+
+Example handoff_other_byte_order_refuted : of_le (input_index_field 1) = 16777216 /\ of_le (input_index_field 1) <> 1.
+Proof. exact import_other_byte_order_refuted. Qed.
+
 Print Assumptions bytes_order_is_bip67.
 Print Assumptions redeem_perm_invariant.
 Print Assumptions redeem_is_spec.
@@ -257,3 +276,5 @@ Print Assumptions handoff_preserves_committed_fields.
 Print Assumptions m_signers_suffice_committed.
 Print Assumptions tx_verifies_iff_every_input.
 Print Assumptions input_verifies_iff_m_signers.
+Print Assumptions handoff_keeps_output_index.
+Print Assumptions outpoints_distinct.
